@@ -441,3 +441,14 @@ def proof_broken_payload(res):
             "lemma": br.failed_lemma, "coqc_excerpt": br.excerpt,
             "disallowed_assumptions": [o for o in res["obligations"] if o.get("disallowed")],
             "forbidden": res["forbidden"]}
+
+
+def replay_recorded_findings(ctx, names):
+    """Replays recorded (open) findings on the implementation; each one that still reproduces goes through
+    ctx.violation with key {"witness": name}: a KNOWN-FINDING line while known_findings.json lists it,
+    a VIOLATION otherwise."""
+    out = run_oracle("findings.py", {"names": list(names)})
+    for n, what in out.items():
+        if what:
+            ctx.violation("counterexample", {"key": {"witness": n}, "input": n, "what": what,
+                                             "snippet": f"# harness/oracles/findings.py: {n}()"})
